@@ -222,3 +222,39 @@ def judge_builder(run, sessions, res, limit=5):
                                                  "model block": hx[:3000], "library block": blk.hex()[:3000]}))
         elif same and "conforms=yes" not in m and len(run.model_fail) < limit:
             run.model_fail.append((s[0][:5000], {"correspondence": "the block value built lies outside Conforms block", "model": m[-60:]}))
+
+
+def judge_projection(run, sessions, res, limit=5):
+    """record level: for sessions with ONE parameter set the query/responses the library reader returns, over all blocks in
+    order, must be what the Lean projection model (`Model.Resolve.expectedQrs`, proved equal to index resolution of the block
+    built) says for the records buffered – independent of where blocks were flushed"""
+    import re
+    lines, metas = [], []
+    for s, r in zip(sessions, res):
+        ref = s[1]
+        toks = s[0].split()
+        if r["results"] is None or len(ref.bps) != 1 or any(t.split(":")[0] in ("EH", "AB", "WB", "R") for t in toks):
+            continue
+        if len(r["plain"]) != 1 or not r["plain"][0][0]:
+            continue
+        dump = r["rd"].get(0)
+        if not dump or not dump.endswith(" EOF"):
+            continue
+        p = {"qrh": G.ALL_QRH, "sigh": G.ALL_SIGH, "rrh": 3, "odh": 3, "tps": 1000000}
+        p.update(ref.bps[0])
+        recs = [t for t in toks if t[:2] in ("Q:", "A:", "M:")]
+        lines.append("prjd %d %d %d %d %d %s" % (p["qrh"], p["sigh"], p["rrh"], p["odh"], p["tps"], " ".join(recs)))
+        metas.append((s, re.findall(r"Q\{[^}]*\}", dump)))
+    if not lines or not run.driver_ok:
+        return
+    for (s, got), m in zip(metas, G.run_driver(lines)):
+        run.count("projection-model: query/responses of a session compared")
+        if m is None or not m.startswith("M"):
+            continue
+        exp = [x for x in m[2:].split(";") if x]
+        if exp != got and len(run.model_fail) < limit:
+            k = next((i for i in range(min(len(exp), len(got))) if exp[i] != got[i]), min(len(exp), len(got)))
+            run.model_fail.append((s[0][:5000], {"correspondence": "Model.Resolve.expectedQrs (hint projection = index resolution of the block built) vs the "
+                                                 "query/responses the library reader returns", "first difference at record": k,
+                                                 "model": (exp[k] if k < len(exp) else "<none>")[:1500], "library": (got[k] if k < len(got) else "<none>")[:1500],
+                                                 "counts": [len(exp), len(got)]}))
